@@ -452,6 +452,7 @@ class SimProbe : public Oomd::Engine::BasePlugin {
     argParser_.addArgument("order", order_);
     argParser_.addArgument("light", light_);
     argParser_.addArgument("temporal_from", temporalFrom_);
+    argParser_.addArgument("temporal_skip", temporalSkip_);
     if (!argParser_.parse(args))
       return 1;
     return 0;
@@ -589,7 +590,7 @@ class SimProbe : public Oomd::Engine::BasePlugin {
       for (auto& f : fields) {
         // before `temporal_from` the temporal values (and what they are
         // derived from) are not asked for: their first query comes late
-        if (R.tick < temporalFrom_ &&
+        if ((R.tick < temporalFrom_ || skipsTick(R.tick)) &&
             (f == "average_usage" || f == "io_cost_rate" ||
              f == "pg_scan_rate" || f == "memory_growth" ||
              f == "io_cost_cumulative" || f == "pg_scan_cumulative"))
@@ -657,6 +658,20 @@ class SimProbe : public Oomd::Engine::BasePlugin {
   int order_ = 0;
   bool light_ = false;
   int temporalFrom_ = 0;
+  std::string temporalSkip_; // "2,5": ticks on which temporal values are
+                             // not asked for (a gap in the history)
+  bool skipsTick(int t) const {
+    std::string cur;
+    for (char ch : temporalSkip_ + ",") {
+      if (ch == ',') {
+        if (!cur.empty() && atoi(cur.c_str()) == t)
+          return true;
+        cur.clear();
+      } else
+        cur += ch;
+    }
+    return false;
+  }
 };
 } // namespace sim
 namespace Oomd {
